@@ -258,6 +258,18 @@ func judge(prog *gen.Program, in ref.Inputs, out *Out, model *ref.Result) []find
 		case ref.EMissingFunds:
 			if out.Err == nil {
 				add("C03.spurious-success", "the sources cannot supply the amount, yet the execution succeeded with "+postingsStr(out.Postings))
+				// were the saved funds what was missing? (the same script without its save statements is funded)
+				var rest []gen.Stmt
+				for _, st := range prog.Stmts {
+					if _, isSave := st.(*gen.Save); !isSave {
+						rest = append(rest, st)
+					}
+				}
+				if len(rest) < len(prog.Stmts) {
+					if m2 := ref.Run(&gen.Program{Vars: prog.Vars, HasVars: prog.HasVars, Stmts: rest}, in); m2.Err == "" {
+						add("C08.saved-funds-spent", "only the funds set aside by `save` could have paid for this, yet the execution succeeded with "+postingsStr(out.Postings))
+					}
+				}
 			} else if out.ErrType != ref.EMissingFunds {
 				add("C03.wrong-error", "the sources cannot supply the amount; expected an insufficient-funds error, got "+out.ErrType)
 			}
